@@ -46,12 +46,13 @@ Proof. exact sync_stripe_other_stripes. Qed.
 Print Assumptions read_error_other_stripes.
 
 (* processing goes on until the I/O error count reaches the limit, and stops exactly there: a run that did not bail
-   has counted no I/O error or fewer than the limit (read errors and collected writer errors alike) *)
+   has counted no I/O error or fewer than the limit (read errors and collected writer errors alike), except for the ONE
+   increment the end-of-run flush of the writers' last reports may add without testing the limit (below_limit_end) *)
 Theorem error_limit :
   forall hashf bs nlev o now fs faults wf m lag stripes stop it q nfail c par ne ns ni,
     below_limit o ni ->
     let r := sync_loop_w hashf bs nlev o now fs faults wf m lag stripes stop it q nfail c par ne ns ni in
-    ro_bailed (w_run r) = false -> below_limit o (ro_nio (w_run r)).
+    ro_bailed (w_run r) = false -> below_limit_end o (ro_nio (w_run r)).
 Proof. exact error_limit. Qed.
 Print Assumptions error_limit.
 Theorem stripe_error_limit :
@@ -74,9 +75,10 @@ Print Assumptions scrub_read_error_safe.
 (* ---- parity write errors ----
    Full strength (FaultProofs.write_error_safe_stmt): whenever some pwrite of the run fails the exit status is failing,
    and no stripe ends recorded synced-and-healthy over a parity block that is not a generator output.  FALSE on the
-   pinned tree (F-C08): recorded synced (threaded and single-thread), errors of the last queued stripes lost (threaded);
-   the third way (single-thread errors never reported) was repaired in /repo 55c30f5 and is now a theorem
-   (write_error_exit_mono).  The check replays the witnesses on the binary. *)
+   current tree in ONE way (F-C08-parity-write-error-recorded-synced: threaded and single-thread); the two other ways found
+   on the pinned tree (errors of the last queued stripes lost; single-thread errors never reported) were repaired in /repo
+   (1304269, 55c30f5) and the exit-status half is now a theorem (write_error_exit_safe).  The check replays the witnesses
+   on the binary and raises a plain violation if exit 0 ever comes back. *)
 Theorem write_error_safe_refuted : ~ write_error_safe_stmt.
 Proof. exact write_error_safe_refuted. Qed.
 Print Assumptions write_error_safe_refuted.
@@ -88,12 +90,22 @@ Theorem write_error_refuted_threaded_notlast :
 Proof. exact write_error_refuted_threaded_notlast. Qed.
 Print Assumptions write_error_refuted_threaded_notlast.
 
-Theorem write_error_refuted_threaded_last :
+(* the failing write is the last one queued: counted since the repair 1304269 (next theorem), still recorded synced *)
+Theorem write_error_last_recorded_synced :
   let r := wrun (Threaded 3) 7 in
-  w_nfail r = 1 /\ run_failing (w_run r) = false /\ length (w_lost r) = 1 /\
+  w_nfail r = 1 /\ run_failing (w_run r) = true /\ length (w_lost r) = 0 /\
   recorded_healthy (ro_content (w_run r)) 7 = true /\ nth 7 (nth 0 (ro_parity (w_run r)) []) PNone = PJunk 8.
-Proof. exact write_error_refuted_threaded_last. Qed.
-Print Assumptions write_error_refuted_threaded_last.
+Proof. exact write_error_last_recorded_synced. Qed.
+Print Assumptions write_error_last_recorded_synced.
+
+(* the exit-status half of the full statement, now TRUE for every mode and writer schedule (repairs 55c30f5 and 1304269 of
+   F-C08-mono-writer-errors-lost / F-C08-last-writer-errors-lost): any failed parity write gives a failing status *)
+Theorem write_error_exit_safe :
+  forall hashf bs nlev o now fs faults wf m lag stripes stop c par,
+    let r := sync_loop_w hashf bs nlev o now fs faults wf m lag stripes stop 0 [] 0 c par 0 0 0 in
+    0 < w_nfail r -> run_failing (w_run r) = true.
+Proof. exact write_error_exit_safe. Qed.
+Print Assumptions write_error_exit_safe.
 
 (* single-thread mode: since the repair 55c30f5 of F-C08-mono-writer-errors-lost the exit status is failing whenever a
    parity write failed (proved below); the stripe is still recorded synced over the old block (same defect as in
